@@ -84,6 +84,9 @@ type half struct {
 	frames  int // frames written (a Write carries whole frames here)
 	lastID  uint32
 	hdrs    []net.Header
+	// failWrites: every Write towards this half fails (a peer that stopped reading, a broken pipe seen
+	// by the writer only): nothing is buffered, the reading direction is not affected
+	failWrites bool
 }
 
 type hStream struct {
@@ -121,6 +124,9 @@ func (s *hStream) Write(p []byte) (int, error) {
 	defer h.w.mu.Unlock()
 	if h.closed {
 		return 0, io.ErrClosedPipe
+	}
+	if h.failWrites {
+		return 0, fmt.Errorf("write fault injected by the harness")
 	}
 	h.buf = append(h.buf, p...)
 	// account the frames carried by this write
